@@ -293,7 +293,7 @@ def seen_from_exception(ex, m, c, slots):
     if type(ex) in vinegar._exception_classes_cache.values():
         return "raised " + ve.obj_text(ex, m, c, slots, True)
     if type(ex) is StopIteration and not ex.args and not getattr(ex, "__dict__", None):
-        return "raised " + ve.obj_text(ex, "builtins", "StopIteration", slots, True)
+        return "raised " + ve.obj_text(ex, "builtins", "StopIteration", {}, True)
     return "err " + ve.err_name(ex)
 
 
@@ -341,22 +341,33 @@ def model_line_rt(s, kind, r, env, fmt, table, rec):
     return "vin rt %s%s %s %s %s %s %s %s %s %s %s" % (s, kind, r, env, fmt, table, rec[1], rec[2], rec[3], rec[4], rec[5])
 
 
-def run_exc_direct(spec, s, r):
-    """-> (model op line, observation dict, info)"""
+def direct_product(spec, configs, with_tb=True):
+    """one exception through the real dump -> brine -> load under each (s, r) of configs;
+    yields (s, r, model op line, observation dict, info)"""
     from rpyc.core import vinegar, brine
     exc = build_exc(spec)
-    t, v, tb = capture(exc)
+    t, v, tb = capture(exc) if with_tb else (type(exc), exc, None)
     rec = ve.extract_record(t, v, tb)
     m, c = t.__module__, t.__name__
     env, fmt, table, info = ve.environment(m, c, rec[6])
-    line = model_line_rt(s[:2] + "FF", rec[0], r, env, fmt, table, rec)
-    sf, rf = flags(s), flags(r)
-    payload = vinegar.dump(t, v, tb, sf[0], sf[1])
-    wire = brine.load(brine.dump(payload))
-    obs = observe_load(wire, rf, m, c, info["slots"])
-    obs["pay"] = valtext.canon(payload)
-    info.update(m=m, c=c, exc=v, tbtext="".join(traceback.format_exception(t, v, tb)), payload=payload)
-    return line, obs, info
+    info.update(m=m, c=c, exc=v, tbtext="".join(traceback.format_exception(t, v, tb)))
+    wires = {}
+    for s, r in configs:
+        sf, rf = flags(s), flags(r)
+        if s[:2] not in wires:
+            payload = vinegar.dump(t, v, tb, sf[0], sf[1])
+            wires[s[:2]] = (brine.load(brine.dump(payload)), valtext.canon(payload))
+        wire, pay = wires[s[:2]]
+        line = model_line_rt(s[:2] + "FF", rec[0], r, env, fmt, table, rec)
+        obs = observe_load(wire, rf, m, c, info["slots"])
+        obs["pay"] = pay
+        yield s, r, line, obs, info
+
+
+def run_exc_direct(spec, s, r, with_tb=True):
+    """-> (model op line, observation dict, info)"""
+    for _s, _r, line, obs, info in direct_product(spec, [(s, r)], with_tb):
+        return line, obs, info
 
 
 def run_payload_direct(payload, r):
@@ -511,6 +522,14 @@ def run_payload_e2e(pair, payload, r, sync=True):
     STASH[0] = RuntimeError("replaced by a crafted payload")
     if c04.has_overlimit_int(payload):
         raise Skip("brine cannot put this payload on the wire (int beyond the digit limit)")
+    from rpyc.core import brine
+    for _ in range(6):     # a frozenset is rebuilt by the receiver: send the value whose iteration order survives the wire
+        again = brine.load(brine.dump(payload))
+        if valtext.to_text(again) == valtext.to_text(payload):
+            break
+        payload = again
+    else:
+        raise Skip("frozenset iteration order does not settle over the wire")
     m, c, pairs = ve.preparse(payload)
     env, fmt, table, info = ve.environment(m, c, pairs)
     line = "vin load %s %s %s %s %s" % (r, env, fmt, table, valtext.to_text(payload))
